@@ -227,6 +227,63 @@ def run(chk):
         model_expect.append(encode_result(st, r, [s]))
         model_info.append(dict(length=L, le=le, start=start, size=w, payload=d.hex(), outside=True))
 
+    # ---------- part 3b: one Frame object decoded repeatedly while its definition is edited in place ----------
+    # (decoding must read the CURRENT definition: no state may survive from an earlier decode of the same object)
+    for _ in range(150 if not thorough else 3000):
+        L = rng.choice([1, 2, 3, 8, 12, 64])
+        nbits = 8 * L
+        fr = C.Frame("f", size=L)
+        nsig = rng.randrange(1, 4)
+        sigs = []
+        for i in range(nsig):
+            w = rng.randrange(1, min(nbits, 24) + 1)
+            s = C.Signal("s%d" % i, start_bit=rng.randrange(0, nbits - w + 1), size=w, is_little_endian=rng.random() < 0.5,
+                         is_signed=rng.random() < 0.5)
+            fr.add_signal(s)
+            sigs.append(s)
+        if rng.random() < 0.3:
+            sigs[0].multiplex_setter("Multiplexor")
+            for s in sigs[1:]:
+                s.multiplex_setter(None)
+        for step in range(4):
+            d = bytes(rng.randrange(256) for _ in range(L))
+            try:
+                r = fr.decode(d)
+                got = {k: v.raw_value for k, v in r.items()}
+            except Exception as e:
+                got = "raise:" + type(e).__name__
+            exp = {s.name: spec_value(d, s.is_little_endian, s.start_bit, s.size, s.is_signed) for s in fr.signals}
+            chk.case(("edit", L, step, d, tuple((s.start_bit, s.size, s.is_little_endian, s.is_signed) for s in fr.signals)), step > 0)
+            chk.count("decode-after-in-place-edit" if step else "decode-before-edit")
+            if got != exp:
+                chk.violation("decode-after-edit", "decoding does not follow the frame definition after a signal was edited in place "
+                              "(a fresh frame with the same definition decodes differently)",
+                              dict(length=L, step=step, signals=[(s.name, s.start_bit, s.size, s.is_little_endian, s.is_signed) for s in fr.signals],
+                                   payload=d.hex()), exp, got)
+                break
+            # edit one signal in place, keeping it inside the frame and keeping the number of signals
+            s = rng.choice(fr.signals)
+            kind = rng.choice(["move", "resize", "flip", "sign", "replace", "setstart"])
+            if kind == "move":
+                s.start_bit = rng.randrange(0, nbits - s.size + 1)
+            elif kind == "resize":
+                s.size = rng.randrange(1, min(nbits - s.start_bit, 24) + 1)
+            elif kind == "flip":
+                s.is_little_endian = not s.is_little_endian
+            elif kind == "sign":
+                s.is_signed = not s.is_signed
+            elif kind == "setstart":
+                try:
+                    s.set_startbit(rng.randrange(0, nbits - s.size + 1))
+                except Exception:
+                    pass
+            else:
+                w = rng.randrange(1, min(nbits, 24) + 1)
+                new = C.Signal(s.name, start_bit=rng.randrange(0, nbits - w + 1), size=w, is_little_endian=rng.random() < 0.5,
+                               is_signed=rng.random() < 0.5)
+                new.multiplex_setter(s.multiplex)
+                fr.signals[fr.signals.index(s)] = new
+
     # ---------- part 4: the length rule ----------
     def make_frames(L):
         out = []
